@@ -195,6 +195,22 @@ theorem control_given_up_only_at_hook (now : Nat) (ks : List Nat) (s : CState) :
       ∃ pre k o, (sweepTurn now ks s).2.1 = pre ++ [Obs.timeout k o] ∧ o ≠ [] ∧ ∀ x ∈ pre, outsOf x = []) :=
   ⟨turn_through_no_hook now ks s, turn_suspended_at_hook now ks s⟩
 
+open SmppVerif.SweepTasks SmppVerif.Lemmas.SweepTasks in
+/-- The same for whole operations: a turn of `put` / `get` either leaves the operation in flight - then it ended in a hook
+    call (the time-out report of some request), and what remains to be done is unchanged - or completes it: a `put` has
+    then stored its request, with the clock value of that turn, as the last thing it did.  So the by-the-next-request
+    clause is a matter of hook calls returning, nothing else: a request stored by `put` is in the store as soon as every
+    hook call of the sweep in front of it has returned. -/
+theorem operation_suspended_only_in_hook (t : Task) (clock : Nat) (s : CState) :
+    (∀ t', (taskTurn t clock s).2.2 = some t' →
+      (∃ pre k o, (taskTurn t clock s).2.1 = pre ++ [Obs.timeout k o] ∧ o ≠ [] ∧ ∀ x ∈ pre, outsOf x = []) ∧
+      t'.after = t.after) ∧
+    ((taskTurn t clock s).2.2 = none →
+      match t.after with
+      | .store m => ∃ pre, (taskTurn t clock s).2.1 = pre ++ [Obs.stored m.seq clock] ∧ ∀ x ∈ pre, outsOf x = []
+      | .nothing => ∀ x ∈ (taskTurn t clock s).2.1, outsOf x = []) :=
+  ⟨taskTurn_suspended_at_hook t clock s, taskTurn_through t clock s⟩
+
 /-- non-vacuity: an overdue probe in front of an overdue submit_sm - one turn removes both, the first silently, and
     suspends in the hook call for the second with the third key still to visit -/
 example :
@@ -269,6 +285,7 @@ end SmppVerif.Props.C14
 #print axioms SmppVerif.Props.C14.interleaved_nothing_passed_over
 #print axioms SmppVerif.Props.C14.atomic_sweep_is_uninterrupted_turns
 #print axioms SmppVerif.Props.C14.control_given_up_only_at_hook
+#print axioms SmppVerif.Props.C14.operation_suspended_only_in_hook
 #print axioms SmppVerif.Props.C14.sweep_awaits_only_the_hook
 #print axioms SmppVerif.Props.C14.operations_await_only_the_sweep
 #print axioms SmppVerif.Props.C14.correlator_step_order
